@@ -126,6 +126,9 @@ def build_sig_script(rng, xonly, allow_codesep, nsig=None, fill=True):
         codesep_first = True
     for j in range(nsig):
         ki = rng.below(len(KEYS))
+        if fill and rng.chance(12):
+            # ballast: script codes longer than 512 bytes are legal and rare
+            ss.add(S.asm([rng.bytes(rng.choice([300, 513, 520])), "OP_DROP"]))
         if fill and rng.chance(45):
             ss.add(S.asm(filler(rng, rng.range(1, 3))))
         if allow_codesep == "any" and j > 0 and rng.chance(35):
@@ -141,7 +144,7 @@ def build_sig_script(rng, xonly, allow_codesep, nsig=None, fill=True):
 
 def make(rng, kind=None):
     """-> {"tx": hex, "txin": hex, "kind": kind, "opts": [...]}"""
-    kind = kind or rng.weighted([(3, "p2pkh"), (2, "multisig"), (3, "p2sh-multisig"), (2, "p2sh-generic"), (1, "p2sh-empty"), (2, "legacy-codesep"), (2, "p2wpkh"),
+    kind = kind or rng.weighted([(3, "p2pkh"), (2, "multisig"), (3, "p2sh-multisig"), (2, "p2sh-generic"), (1, "p2sh-empty"), (1, "p2wsh-template"), (2, "legacy-codesep"), (2, "p2wpkh"),
                                  (1, "p2sh-p2wpkh"), (4, "p2wsh"), (2, "p2sh-p2wsh"), (2, "p2tr"), (7, "tapscript")])
     opts = []
     select = None
@@ -234,6 +237,18 @@ def make(rng, kind=None):
         tx.vin[0].witness = list(reversed(sigs)) + [ws]
         if kind == "p2sh-p2wsh":
             tx.vin[0].script_sig = S.push(prog)
+    elif kind == "p2wsh-template":
+        # a witness script that has the byte shape of a standard output template (a hash lock), no signature
+        # (btcdeb re-parses witness items from hex text: an item whose hex is all decimal digits becomes a number - a
+        # C03 matter; the preimages used here always contain a hex letter)
+        pre = rng.choice([bytes([0x5a, 0x75, 0x51]), bytes([0x4f, 0x75, 0x51]), bytes([0x00, 0x75, 0x5b]), rng.bytes(rng.range(2, 20)) + b"\xab"])
+        ws = rng.choice([bytes([0xa9, 0x14]) + T.hash160(pre) + bytes([0x87]),
+                         bytes([0x76, 0xa9, 0x14]) + T.hash160(pre) + bytes([0x88, 0x75, 0x51]),
+                         bytes([0xa8, 0x20]) + sha256(pre) + bytes([0x87])])
+        prog = bytes([0x00, 0x20]) + sha256(ws)
+        fund = funding(prog)
+        tx = spending_skeleton(fund, rng)
+        tx.vin[0].witness = [S.scriptnum(rng.range(17, 900)) for _ in range(rng.range(0, 1))] + [pre, ws]
     elif kind in ("p2tr", "tapscript"):
         ik = rng.below(len(KEYS))
         # Merkle paths up to the maximum a control block can carry (128 nodes)
